@@ -352,7 +352,7 @@ theorem multiLine_ctx (cfg : Config) (m : MatcherI) (inp : Bytes) (hinv : cfg.in
     intro ev hev; simp at hev; subst hev; rfl
   constructor
   · rw [multiLine_eq, hpre, hspec]
-    simp [finishRun, finish_eq, Run.events, byteCount, hb2, hev2, hp2, hpos', withE]
+    simp [finishRun, finish_eq, Run.events, byteCount, ite_self, hb2, hev2, hp2, hpos', withE]
   · rw [multiLine_eq, hpre]
     simp [finishRun, finish_eq, allCont]
 
